@@ -8,9 +8,9 @@ for p in C01 C02 C03 C04 C05 C06 C07 C08 C09 C10 C11 C12 C13 C14 C15 C16 C17 C18
   [ -f lean/MinaProofs/Props/$p.lean ] && python3 -c "import sys; sys.path.insert(0,'lib'); import pipeline; pipeline.write_audit('$p')"
 done
 (cd lean && lake build MinaModel MinaProofs mina_model)
-for c in harness/*/; do
+for c in harness/core_harness/ harness/bevy_harness/ harness/macro_harness/; do
   [ -f "$c/Cargo.toml" ] || continue
   [ -f "$c/Cargo.lock" ] || cp /repo/Cargo.lock "$c/Cargo.lock"
-  (cd "$c" && cargo build --offline --quiet && cargo build --offline --quiet --release)
+  (cd "$c" && cargo build --offline --quiet && if [ "$c" = "harness/core_harness/" ]; then cargo build --offline --quiet --release; fi)
 done
 echo setup done
